@@ -14,10 +14,12 @@ import (
 	"encoding/json"
 	"errors"
 	"fmt"
+	"os"
 	"runtime"
 	"strconv"
 	"strings"
 	"sync"
+	"sync/atomic"
 	"time"
 
 	"github.com/anyproto/any-sync/app/ocache"
@@ -38,13 +40,17 @@ type Desc struct {
 	Setup   []Op   `json:"setup,omitempty"` // run to completion by an extra thread before anything else
 	Progs   [][]Op `json:"progs"`
 	Choices []int  `json:"choices"`
+	// Fine: lock-region granularity (see ilv.go). Every goroutine is additionally parked in front of each
+	// outermost mutex acquisition of the cache; "let thread t take its next lock" is a scheduler action.
+	Fine  bool `json:"fine,omitempty"`
+	Bound int  `json:"bound,omitempty"` // preemption bound the schedule was enumerated under (informational)
 }
 
 type Ev struct {
 	K   string // call ret ls le ce cx te tx
 	T   int
 	Op  Op
-	N   int    // instance
+	N   int // instance
 	Id  int
 	Res string // Coq result term
 	B   bool
@@ -61,8 +67,12 @@ type thread struct {
 	pc     int
 	inCall bool
 	goid   int64
-	parked string // "", load, close, try
+	parked string // "", load, close, try, lock
 	gate   chan resp
+	// fine mode; touched only by the goroutine of the thread's current call
+	held     int  // instrumented mutexes held
+	skipNext bool // a harness callback has just returned: the next outermost lock is passed through
+	noYield  bool // setup thread
 }
 
 type obj struct {
@@ -72,18 +82,20 @@ type obj struct {
 }
 
 type runner struct {
-	mu       sync.Mutex
-	cache    ocache.OCache
-	th       []*thread
-	goids    map[int64]int
-	events   []Ev
-	cuts     []int
-	ninst    int
-	last     map[int]*obj
-	aborted  bool
-	panics   []string
-	problems []string
-	maxConc  int
+	mu        sync.Mutex
+	cache     ocache.OCache
+	th        []*thread
+	goids     map[int64]int
+	events    []Ev
+	cuts      []int
+	ninst     int
+	last      map[int]*obj
+	aborted   bool
+	panics    []string
+	problems  []string
+	maxConc   int
+	fine      bool
+	nLockPark int
 }
 
 func curGoid() int64 {
@@ -140,6 +152,7 @@ func (r *runner) loadFunc(ctx context.Context, id string) (ocache.Object, error)
 	nid, _ := strconv.Atoi(id)
 	r.log(Ev{K: "ls", T: t, Id: nid})
 	rs := r.park(t, "load")
+	r.afterCallback(t)
 	r.mu.Lock()
 	defer r.mu.Unlock()
 	if rs.ok {
@@ -157,6 +170,7 @@ func (o *obj) Close() error {
 	t := o.r.curThread()
 	o.r.log(Ev{K: "ce", T: t, N: o.n})
 	o.r.park(t, "close")
+	o.r.afterCallback(t)
 	o.r.log(Ev{K: "cx", T: t, N: o.n})
 	return nil
 }
@@ -165,6 +179,7 @@ func (o *obj) TryClose(time.Duration) (bool, error) {
 	t := o.r.curThread()
 	o.r.log(Ev{K: "te", T: t, N: o.n})
 	rs := o.r.park(t, "try")
+	o.r.afterCallback(t)
 	o.r.log(Ev{K: "tx", T: t, N: o.n, B: rs.ok})
 	return rs.ok, nil
 }
@@ -229,6 +244,7 @@ func (r *runner) startCall(t int) {
 		r.mu.Lock()
 		r.goids[g] = t
 		th.goid = g
+		th.held, th.skipNext = 0, false
 		var addObj, sameObj *obj
 		n := 0
 		switch op.Op {
@@ -296,6 +312,8 @@ func (r *runner) startCall(t int) {
 var blockedStates = map[string]bool{
 	"chan receive": true, "select": true, "chan send": true, "select (no cases)": true,
 	"chan receive (nil chan)": true, "sync.Cond.Wait": true, "sync.WaitGroup.Wait": true,
+	// blocked on a mutex whose holder is parked (can only happen when a callback is invoked under a lock)
+	"sync.Mutex.Lock": true, "sync.RWMutex.Lock": true, "sync.RWMutex.RLock": true,
 }
 
 // goroutineStates returns goid -> wait state of all goroutines (stop-the-world snapshot).
@@ -370,21 +388,47 @@ func (r *runner) settle(limit time.Duration) bool {
 	}
 }
 
+// Wall-clock guard for "still running": generous (the machine may be heavily loaded; a goroutine that is merely
+// waiting for a CPU must not be reported), cut down once a hang has been reported in this run.
+var hangSeen atomic.Bool
+var noHint = os.Getenv("C16_NOHINT") != ""
+
+func settleLimit() time.Duration {
+	if hangSeen.Load() {
+		return 5 * time.Second
+	}
+	return 40 * time.Second
+}
+
 type option struct {
 	t    int
-	kind string // start, load, close, try
+	kind string // start, load, close, try, lock
 	ok   bool
 }
 
-func (r *runner) options(only int) []option {
+// options lists the scheduler's possible actions in canonical order: by thread; in fine mode the options of
+// the thread that moved last come first (so that choice 0 = "no preemption").
+func (r *runner) options(only, last int) []option {
 	var res []option
 	r.mu.Lock()
 	defer r.mu.Unlock()
-	for t, th := range r.th {
+	order := make([]int, 0, len(r.th))
+	if r.fine && last >= 0 {
+		order = append(order, last)
+	}
+	for t := range r.th {
+		if !(r.fine && last >= 0 && t == last) {
+			order = append(order, t)
+		}
+	}
+	for _, t := range order {
+		th := r.th[t]
 		if only >= 0 && t != only {
 			continue
 		}
 		switch {
+		case th.inCall && th.parked == "lock":
+			res = append(res, option{t, "lock", true})
 		case th.inCall && th.parked == "load":
 			res = append(res, option{t, "load", true}, option{t, "load", false})
 		case th.inCall && th.parked == "close":
@@ -414,7 +458,11 @@ func (r *runner) abort() {
 type outcome struct {
 	choices []int
 	counts  []int
+	costs   [][]int // fine mode: per decision, per option: 1 = choosing it preempts the thread that moved last
 	steps   [][]Ev
+	movers  [][]int // fine mode: per step, the threads that were not frozen at a gate during it
+	fine    bool
+	locks   int // fine mode: number of lock gates passed
 	nth     int
 	bad     string // "", panic, hang, deadlock, error
 	what    string
@@ -424,6 +472,11 @@ type outcome struct {
 // runSchedule forces one schedule: choices[i] selects the i-th decision (index into the canonical option list);
 // after the prefix, pick(i, n) chooses.
 func runSchedule(d Desc, pick func(i, n int) int) outcome {
+	return runScheduleOpts(d, func(i int, opts []option, last int) int { return pick(i, len(opts)) })
+}
+
+// runScheduleOpts: the chooser also sees the options and the thread that moved last.
+func runScheduleOpts(d Desc, pick func(i int, opts []option, last int) int) outcome {
 	progs := append([][]Op{}, d.Progs...)
 	setupT := -1
 	if len(d.Setup) > 0 {
@@ -431,7 +484,15 @@ func runSchedule(d Desc, pick func(i, n int) int) outcome {
 		progs = append(progs, d.Setup)
 	}
 	r := newRunner(progs)
-	out := outcome{nth: len(progs)}
+	r.fine = d.Fine
+	if setupT >= 0 {
+		r.th[setupT].noYield = true
+	}
+	curRunner.Store(r)
+	defer curRunner.Store(nil)
+	out := outcome{nth: len(progs), fine: d.Fine}
+	var movers [][]int
+	last := -1
 	start := time.Now()
 	finish := func(bad, what string) outcome {
 		r.abort()
@@ -448,11 +509,14 @@ func runSchedule(d Desc, pick func(i, n int) int) outcome {
 			out.steps = append(out.steps, evs[cuts[i]:end])
 		}
 		out.conc = r.maxConc
+		out.locks = r.nLockPark
+		out.movers = movers
 		return out
 	}
 	for step := 0; ; step++ {
-		if !r.settle(5 * time.Second) {
-			return finish("hang", "goroutines still running 5s after a scheduler action")
+		if lim := settleLimit(); !r.settle(lim) {
+			hangSeen.Store(true)
+			return finish("hang", fmt.Sprintf("goroutines still running %s after a scheduler action", lim))
 		}
 		r.mu.Lock()
 		np, nprob := len(r.panics), len(r.problems)
@@ -479,14 +543,15 @@ func runSchedule(d Desc, pick func(i, n int) int) outcome {
 				only = setupT
 			}
 		}
-		opts := r.options(only)
+		opts := r.options(only, last)
 		if len(opts) == 0 {
 			if conc > 0 {
 				return finish("deadlock", "calls in progress, every goroutine blocked inside the cache, no gate to release")
 			}
 			return finish("", "")
 		}
-		if time.Since(start) > 20*time.Second || step > 400 {
+		if time.Since(start) > 4*settleLimit() || step > 400 {
+			hangSeen.Store(true)
 			return finish("hang", "schedule did not finish")
 		}
 		var c int
@@ -497,14 +562,38 @@ func runSchedule(d Desc, pick func(i, n int) int) outcome {
 			if i < len(d.Choices) {
 				c = d.Choices[i] % len(opts)
 			} else {
-				c = pick(i, len(opts))
+				c = pick(i, opts, last)
 			}
 			out.choices = append(out.choices, c)
 			out.counts = append(out.counts, len(opts))
+			if d.Fine {
+				lastHas := false
+				for _, x := range opts {
+					lastHas = lastHas || x.t == last
+				}
+				cs := make([]int, len(opts))
+				for j, x := range opts {
+					if lastHas && x.t != last {
+						cs[j] = 1
+					}
+				}
+				out.costs = append(out.costs, cs)
+			}
 		}
 		o := opts[c]
+		last = o.t
 		r.mu.Lock()
 		r.cuts = append(r.cuts, len(r.events))
+		if d.Fine {
+			// frozen during this step: every thread parked at a gate, except the one released now
+			var mv []int
+			for t, th := range r.th {
+				if th.parked == "" || t == o.t {
+					mv = append(mv, t)
+				}
+			}
+			movers = append(movers, mv)
+		}
 		r.mu.Unlock()
 		if o.kind == "start" {
 			r.startCall(o.t)
@@ -515,6 +604,30 @@ func runSchedule(d Desc, pick func(i, n int) int) outcome {
 			g := th.gate
 			r.mu.Unlock()
 			g <- resp{ok: o.ok}
+		}
+		r.hint(o.t)
+	}
+}
+
+// hint waits a short while for the thread that was just moved to reach its next gate or the end of its call,
+// the usual outcome of a scheduler action. It only saves stop-the-world goroutine dumps: whether the run is
+// quiescent is decided by settle alone.
+func (r *runner) hint(t int) {
+	if noHint {
+		return
+	}
+	for i := 0; i < 150; i++ {
+		r.mu.Lock()
+		th := r.th[t]
+		done := th.parked != "" || !th.inCall
+		r.mu.Unlock()
+		if done {
+			return
+		}
+		if i < 100 {
+			runtime.Gosched()
+		} else {
+			time.Sleep(10 * time.Microsecond)
 		}
 	}
 }
@@ -576,6 +689,16 @@ func caseTerm(o outcome) string {
 			evs[j] = evTerm(e)
 		}
 		steps[i] = vlib.List(evs)
+		if o.fine {
+			mv := make([]string, len(o.movers[i]))
+			for j, t := range o.movers[i] {
+				mv[j] = strconv.Itoa(t)
+			}
+			steps[i] = vlib.Pair(vlib.List(mv), steps[i])
+		}
+	}
+	if o.fine {
+		return fmt.Sprintf("CFine %s", vlib.List(steps))
 	}
 	return fmt.Sprintf("CSched %d %s", o.nth, vlib.List(steps))
 }
@@ -706,12 +829,25 @@ func randOp(rnd *vlib.Rand) Op {
 func main() {
 	vlib.Quiet()
 	o := vlib.ParseFlags()
-	w := vlib.NewWriter(o.Out, "C16_run", 300)
+	if !ilvBuilt {
+		reexecInstrumented(o.Out) // builds the instrumented binary (ilvbuild.go) and becomes it
+	}
+	tStart := time.Now()
+	installHook()
+	if err := selfProbe(); err != nil {
+		fmt.Fprintln(os.Stderr, "c16:", err)
+		os.Exit(3)
+	}
+	w := vlib.NewWriter(o.Out, "C16_run", 220)
 	g := &gen{w: w, sampledKinds: map[string]bool{}}
 	rule := "every case is one forced schedule of the real ocache (one scheduler action at a time, exact quiescence " +
 		"between actions): exhaustive enumeration of all schedules (incl. load ok/err and try-close verdicts) of all " +
 		"unordered pairs over {get,pick,add,remove,tryremove,removesame,gc,close} on id 1 with and without a preloaded " +
 		"instance, pairs mixing ids 1 and 2, sampled/exhaustive triples (thorough: quadruples), random multi-call programs; " +
+		"interleaving families (kind ilv-*): the same on an instrumented build of app/ocache where every goroutine is also " +
+		"parked in front of each outermost c.mu / e.mx acquisition, all schedules with at most 1-2 (thorough 2-3) preemptions of " +
+		"all unordered pairs with/without a preloaded instance, of GC/Close against calls on a second id and of selected triples, " +
+		"plus random schedules of random triples / two-call programs; " +
 		"non-trivial = at least two calls were in progress at the same time; distinct by the full observed trace"
 
 	if o.Replay != "" {
@@ -775,6 +911,10 @@ func main() {
 			}
 		}
 	}
+	t0 := time.Now()
+	nBefore := w.Count()
+	nSched += g.ilvFamilies(thorough, o.Budget, rnd.Fork(16))
+	fmt.Fprintf(os.Stderr, "c16: gate-only families so far %d cases; interleaving families %d cases in %.1fs\n", nBefore, w.Count()-nBefore, time.Since(t0).Seconds())
 	nTriple, nQuad, nLong := 500, 100, 300
 	if thorough {
 		nTriple, nQuad, nLong = 4000, 3000, 4000
@@ -806,5 +946,6 @@ func main() {
 		}
 		g.random(Desc{Kind: "long-random", Progs: progs}, rnd)
 	}
+	fmt.Fprintf(os.Stderr, "c16: %d cases generated in %.1fs (after the instrumented build)\n", w.Count(), time.Since(tStart).Seconds())
 	w.Finish(rule, g.samples, map[string]interface{}{"enumerated_schedules": nSched})
 }
